@@ -1,19 +1,19 @@
-"""C17 (runner half) — units that fail with an exception `_task_wrapper` does not handle.
+"""C17 (runner half) — the failure classes of a unit: every failure must reach the unit's future.
 
-`_task_wrapper` catches `Exception` only.  A unit that raises `SystemExit` / `KeyboardInterrupt` (e.g. calls
-`sys.exit()`), `asyncio.CancelledError` or any other non-`Exception`, or `StopIteration`, is outside the
-`Outcome.exc` of `Model/RunnerSys.lean`; `Model/RunnerSysX.lean` models what the code does then (events `rb:<w>`,
-`rx:<w>`), theorem `C17Sys.base_exception_unit_lost` proves the unit's future is never done.
+`_task_wrapper` catches `Exception` only; `_run_unit` (pool process) converts what asyncio cannot carry back —
+`StopIteration`, `SystemExit` / `KeyboardInterrupt`, `asyncio.CancelledError`, any other non-`Exception` — into a
+`RuntimeError`.  `Model/RunnerSysX.lean`: `xstep` = the code as it is (event `rf:<w>:<class>:<e>` = worker `w` is resumed
+after the unit function raised class ord|stop|base|exit; theorems `xrun_refines`, `every_failure_delivered`), `AsIs.xstep`
+= the RECORD of the code before that repair (theorem `base_exception_unit_lost`: such a unit is never delivered).
 
-Here (a) the REAL `_task_wrapper` coroutines run under the simulated runtime of c17_sys.py with such units and are
-compared with `RunnerSysX.xstep` after every event; (b) the real aiorunner with the real asyncio / process pool runs
-one such unit in a child interpreter (quick tier: one class, thorough: all); (c) the property predicate — every
-submitted unit's future becomes done with the unit's own result or exception — is evaluated on both.
-
-OPEN finding of the unchanged /repo (reported, not yet in known_findings.json): the predicate fails for these classes.
-A hit is written to the evidence (`pending_findings`) instead of being printed as a VIOLATION.  EMPTY
-`PENDING_FINDINGS` when the repair lands in /repo — from then on the signature is a violation again (and
-`RunnerSysX.xstep` has to be re-aligned: the tie will report the disagreement).
+Here (a) the REAL `_task_wrapper` coroutines (and the real `_run_unit`, if the code has one) run under the simulated
+runtime of c17_sys.py with units of every class and are compared after every event with BOTH models; the real code must
+behave as ONE of them in every scenario (as the current model: silent; as the record: no model disagreement, the
+predicate below fails; anything else or a mixture: disagreement); (b) the real aiorunner with the real asyncio / process
+pool runs one such unit per class in a child interpreter (quick tier: two classes, thorough: all); (c) the property
+predicate — every submitted unit's future becomes done with the unit's own result or an exception for its failure — is
+evaluated on both: `C17:runner:unhandled-exception-class-never-delivered` (classes outside `Exception`, StopIteration;
+known_findings.json decides KNOWN-FINDING vs VIOLATION), `C17:runner:exception-not-delivered` (ordinary exceptions).
 """
 from __future__ import annotations
 
@@ -32,9 +32,8 @@ import tempfile
 from props import c17_sys as S
 
 SIG = "C17:runner:unhandled-exception-class-never-delivered"
-PENDING_FINDINGS = [SIG]
 
-KINDS = ("base", "cancel", "sysexit", "kbd")
+KINDS = ("base", "cancel", "sysexit", "kbd", "stopiter")
 
 
 class UnitBase(BaseException):
@@ -51,12 +50,21 @@ SIG_IN = "C17:runner:exception-not-delivered"
 
 
 def judge(ctx, sig, what, rep):
-    if sig in PENDING_FINDINGS and ctx._known(sig) is None:
-        pend = ctx.extra.setdefault("pending_findings", {})
-        ent = pend.setdefault(sig, {"what": what, "occurrences": 0, "witness": rep})
-        ent["occurrences"] += 1
-        return
     ctx.fail(sig, what, rep)
+
+
+def classify(exc):
+    """failure class of what the unit function raised (tokens of RunnerSysXProto)"""
+    if isinstance(exc, StopIteration):
+        return "stop"
+    if isinstance(exc, Exception):
+        return "ord"
+    if isinstance(exc, (SystemExit, KeyboardInterrupt)):
+        return "exit"
+    return "base"
+
+
+CONVERTED = {"stop": 999001, "base": 999002, "exit": 999003}
 
 
 def _raise(kind, u):
@@ -82,12 +90,14 @@ def _raise(kind, u):
 
 
 class XEnv(S.Env):
-    """c17_sys.Env whose resume also hands non-`Exception` failures to the real coroutine"""
+    """c17_sys.Env whose resume hands EVERY failure of the unit function to the real coroutine the way asyncio would"""
 
     loop_dead = False
 
     def live(self):
-        return [] if self.loop_dead else super().live()
+        if self.loop_dead:
+            return []
+        return [w for w in super().live() if not getattr(self.runner._tasks[w], "hung", False)]
 
     def resume(self, w):
         t = self.runner._tasks[w]
@@ -96,6 +106,7 @@ class XEnv(S.Env):
         try:
             if t.susp is not None and t.susp.kind == "exec":
                 fn = t.susp.payload
+                u = self.unit_of_partial(fn)
                 try:
                     res, exc = fn(), None
                 except BaseException as e:  # noqa: BLE001
@@ -103,14 +114,14 @@ class XEnv(S.Env):
                 if exc is None:
                     tok = f"r:{w}:ok:{S.ok_payload(res)}"
                     y = t.coro.send(res)
-                elif isinstance(exc, (SystemExit, KeyboardInterrupt)):
-                    tok, kills_loop = f"rx:{w}", True
-                    y = t.coro.throw(exc)
-                elif not isinstance(exc, Exception):
-                    tok = f"rb:{w}"
-                    y = t.coro.throw(exc)
                 else:
-                    tok = f"r:{w}:exc:{S.exc_payload(exc)}"
+                    orig = self.raised.get(u, exc)           # what the unit FUNCTION raised (exc: what came out of the partial)
+                    tok = f"rf:{w}:{classify(orig)}:{S.exc_payload(orig)}"
+                    if isinstance(exc, StopIteration):
+                        # asyncio cannot copy it into the awaited future (TypeError in the done-callback): never resumed
+                        t.hung, t.hung_unit = True, u
+                        return
+                    kills_loop = isinstance(exc, (SystemExit, KeyboardInterrupt))
                     y = t.coro.throw(exc)
             else:
                 y = t.coro.send(None)
@@ -128,6 +139,19 @@ class XEnv(S.Env):
                 self.loop_dead = True
         self.log(tok)
 
+    @staticmethod
+    def fut_state(f):
+        if not f.done():
+            return "p"
+        e = f.exception()
+        if e is None:
+            return f"ok:{S.ok_payload(f.result())}"
+        c = e.__cause__
+        if isinstance(e, RuntimeError) and c is not None and classify(c) != "ord" \
+                and str(e) == f"unit raised {type(c).__name__}: {c}":
+            return f"exc:{CONVERTED[classify(c)]}"           # the RuntimeError of `_run_unit`, with its own text
+        return f"exc:{S.exc_payload(e)}"
+
     def digest(self):
         d = super().digest()
         d["loop"] = 1 if self.loop_dead else 0
@@ -142,6 +166,7 @@ def simulate(scen):
     env = XEnv(rng, scen["nw"], 0.5)
     env.futs, env.delivered, env.none_returns, env.checks, env.stop_polls = {}, [], 0, 0, 0
     env.pending_ret = None
+    env.raised = {}
     obs = {"status": "ok", "errors": []}
     saved = {k: getattr(AR, k) for k in ("asyncio", "concurrent", "threading", "time")}
     bad = dict(scen["bad"])            # unit -> kind
@@ -150,7 +175,11 @@ def simulate(scen):
         u = md["id"]
         env.ran[u] = env.ran.get(u, 0) + 1
         if u in bad:
-            _raise(bad[u], u)
+            try:
+                _raise(bad[u], u)
+            except BaseException as e:  # noqa: BLE001
+                env.raised[u] = e
+                raise
         out = dict(md)
         out["out"] = 3 * u + 1
         return out
@@ -190,7 +219,9 @@ def simulate(scen):
             pass
     obs.update({"events": env.events, "snap": env.snap, "ran": dict(env.ran), "loop_dead": env.loop_dead,
                 "futs": {u: XEnv.fut_state_x(f) for u, f in env.futs.items()},
-                "tasks": tasks_end})
+                "tasks": tasks_end,
+                "hung_units": [getattr(t, "hung_unit", None) for t in ((env.runner._tasks or []) if env.runner is not None else [])
+                               if getattr(t, "hung", False)]})
     return obs
 
 
@@ -204,7 +235,7 @@ def _fut_state_x(f):
 XEnv.fut_state_x = staticmethod(_fut_state_x)
 
 EXC_NAME = {"base": "UnitBase", "cancel": "CancelledError", "sysexit": "SystemExit", "kbd": "KeyboardInterrupt",
-            "stopiter": ("StopIteration", "RuntimeError", "RunnerError"), "value": "ValueError", "runtime": "RuntimeError",
+            "stopiter": ("StopIteration", "RuntimeError"), "value": "ValueError", "runtime": "RuntimeError",
             "oserror": "FileNotFoundError", "custom": "UnitError", "lookup": "KeyError"}
 
 
@@ -216,7 +247,7 @@ def undelivered(scen, futs):
         stt = futs.get(u, futs.get(str(u), "missing"))
         if u in bad:
             names = EXC_NAME[bad[u]]
-            names = names if isinstance(names, tuple) else ((names,) if bad[u] in IN_GUARD else (names, "RunnerError", "RuntimeError"))
+            names = names if isinstance(names, tuple) else ((names,) if bad[u] in IN_GUARD else (names, "RuntimeError"))
             if not (stt.startswith("exc:") and stt[4:] in names):
                 out.append((u, bad[u], stt))
         elif stt != "ok":
@@ -224,18 +255,21 @@ def undelivered(scen, futs):
     return out
 
 
-def compare_with_model(ctx, scen, obs):
-    evs = obs["events"]
-    line = f"rx-trace {scen['nw']} {len(evs)} {' '.join(evs)}".rstrip()
-    out = ctx.driver([line])[0]
+def judged(scen, obs):
+    """the undelivered units that count: the unit's function has run and no worker still awaits it (its outcome was
+    handed back), or the worker that awaits it is never resumed again"""
+    return [(u, kind, stt) for (u, kind, stt) in undelivered(scen, obs["futs"])
+            if obs["ran"].get(u) and not (f"a{u}" in obs["tasks"] and u not in obs["hung_units"])]
+
+
+def _match(evs, snaps, out):
+    """None if the model trace `out` equals the real states after every event, else a description of the first difference"""
     states = out.split(" ; ") if out else []
-    case = {"rx_scenario": scen}
     if (states and states[-1] == "REJ") or len(states) != len(evs):
         i = len(states) - 1 if states and states[-1] == "REJ" else len(states)
-        ctx.disagree({**case, "event_index": i, "event": evs[i] if i < len(evs) else None, "context": evs[max(0, i - 8): i + 2]},
-                     "happened on the real runner code", "RunnerSysX cannot do this step")
-        return
-    for i, (tok, stt, real) in enumerate(zip(evs, states, obs["snap"])):
+        return {"event_index": i, "event": evs[i] if i < len(evs) else None, "context": evs[max(0, i - 8): i + 2],
+                "what": "the model cannot do this step"}
+    for i, (tok, stt, real) in enumerate(zip(evs, states, snaps)):
         m = S.parse_state(stt)
         lm = re.search(r" loop=(\d)", stt)
         mine = {"pcs": m["pcs"], "queue": [int(x) for x in m["queue"]], "created": [int(x) for x in m["created"]],
@@ -243,9 +277,26 @@ def compare_with_model(ctx, scen, obs):
                 "deliv": m["deliv"], "none": m["none"], "td": m["td"], "loop": int(lm.group(1)) if lm else -1}
         if mine != real:
             diff = {k: (real.get(k), mine[k]) for k in mine if mine[k] != real.get(k)}
-            ctx.disagree({**case, "event_index": i, "event": tok, "context": evs[max(0, i - 8): i + 1]},
-                         f"real state after the event differs in {sorted(diff)}: {diff}", "(real, model)")
-            return
+            return {"event_index": i, "event": tok, "context": evs[max(0, i - 8): i + 1],
+                    "what": f"state after the event differs in {sorted(diff)}: (real, model) {diff}"}
+    return None
+
+
+def compare_with_models(ctx, scen, obs):
+    """'cur' | 'asis' | 'both' | 'neither': which model the real code behaved as in this scenario"""
+    evs = obs["events"]
+    tail = f"{scen['nw']} {len(evs)} {' '.join(evs)}".rstrip()
+    out = ctx.driver([f"rx-trace {tail}", f"rx-trace-asis {tail}"])
+    d_cur, d_old = _match(evs, obs["snap"], out[0]), _match(evs, obs["snap"], out[1])
+    if d_cur is None and d_old is None:
+        return "both"
+    if d_cur is None:
+        return "cur"
+    if d_old is None:
+        return "asis"
+    ctx.disagree({"rx_scenario": scen, **d_cur}, "real runner code", "RunnerSysX.xstep (the code as modelled): " + d_cur["what"],
+                 note="the record of the old behaviour (AsIs.xstep) does not fit either: " + d_old["what"])
+    return "neither"
 
 
 # ------------------------------------------------------------------ the real runtime, one unit class per child
@@ -303,6 +354,7 @@ def run_exc(ctx):
     rng = ctx.rng
     n_scen = 60 if ctx.quick else 1500
     seen = {}
+    verdicts, first = {}, {}
     for i in range(n_scen):
         nw = rng.choice([1, 1, 2, 2, 3])
         n = rng.randint(1, 5)
@@ -318,18 +370,21 @@ def run_exc(ctx):
             ctx.fail("C17:rsys:runner-raised", f"{obs['errors']}", {"rx_scenario": scen})
             continue
         if ctx._driver_ok:
-            compare_with_model(ctx, scen, obs)
-        und = undelivered(scen, obs["futs"])
-        for (u, kind, stt) in und:
-            # judged only when the unit's function has run and no worker still awaits it: its outcome was handed back
-            if not obs["ran"].get(u) or f"a{u}" in obs["tasks"]:
-                continue
+            v = compare_with_models(ctx, scen, obs)
+            verdicts[v] = verdicts.get(v, 0) + 1
+            if v in ("cur", "asis") and v not in first:
+                first[v] = scen
+        for (u, kind, stt) in judged(scen, obs):
             seen[kind] = seen.get(kind, 0) + 1
             hard = kind in IN_GUARD + ("ok",) and not obs["loop_dead"]
             judge(ctx, SIG_IN if hard else SIG, f"simulated runtime: unit {u} fails with {kind!r}; its future ends {stt}, futures {obs['futs']}, "
                             f"worker tasks {obs['tasks']}, event loop dead: {obs['loop_dead']} — the exception is never delivered "
                             f"(as_completed() would wait for ever)", {"rx_scenario": scen})
             break
+    if verdicts.get("cur") and verdicts.get("asis"):
+        ctx.disagree({"what": "the runner behaves as the current model in some scenarios and as the record of the old code in others",
+                      "as_current": first.get("cur"), "as_record": first.get("asis")}, verdicts, "one behaviour everywhere")
+    ctx.extra["runner_failure_classes_behaves_as"] = verdicts
     # the real asyncio / ProcessPoolExecutor
     kinds = ("sysexit", "stopiter", "cancel", "base", "kbd")
     todo = ([kinds[ctx.seed % len(kinds)], IN_GUARD[1 + ctx.seed % (len(IN_GUARD) - 1)]] if ctx.quick
@@ -350,8 +405,9 @@ def run_exc(ctx):
                   {"rx_real": scen})
     ctx.extra["unhandled_exception_classes"] = {"simulated_hits": seen, "real_runtime": real}
     ctx.assumptions.append(
-        "runner theorems (sys_*, stop_*) hold for units that return or raise an `Exception` other than StopIteration "
-        "(theorem xrun_plain); other failure classes: Model/RunnerSysX.lean, theorem base_exception_unit_lost")
+        "failure classes of a unit: `_run_unit` converts StopIteration and non-`Exception`s into RuntimeError in the pool "
+        "process (theorems xrun_refines, every_failure_delivered); the simulated runtime emulates what asyncio does with an "
+        "exception it cannot carry (never resumes the worker / ends the loop thread), confirmed on the real runtime per class")
 
 
 def replay_exc(ctx, obj):
@@ -359,8 +415,8 @@ def replay_exc(ctx, obj):
     if "rx_scenario" in r:
         scen = r["rx_scenario"]
         obs = simulate(scen)
-        und = undelivered(scen, obs["futs"])
-        print("futures:", obs["futs"], "tasks:", obs["tasks"], "loop dead:", obs["loop_dead"])
+        und = judged(scen, obs)
+        print("futures:", obs["futs"], "tasks:", obs["tasks"], "loop dead:", obs["loop_dead"], "undelivered:", und)
         return 1 if und else 0
     if "rx_real" in r:
         scen = r["rx_real"]
